@@ -37,6 +37,10 @@ FailedDecoderParams(r) ==
 
 Failed(r) == CASE r.kind = "spec" -> FailedSpec(r)
                [] r.kind = "decoder_params" -> FailedDecoderParams(r)
+               [] r.kind = "sides" ->
+                    (IF r.raised = "" THEN {} ELSE {"reading_the_specification_raised"})
+                    \cup (IF r.raised # "" \/ (r.built = r.expected /\ r.recorded = r.expected) THEN {}
+                          ELSE {"sides_left_out_default_to_the_first_one"})
                [] r.kind = "registry" -> IF r.name = r.resolved THEN {} ELSE {"registered_name_resolves_to_class_of_that_name"}
                [] r.kind = "rebuild" -> IF r.original = r.rebuilt THEN {} ELSE {"rebuilt_from_recorded_inputs_is_identical"}
 
